@@ -228,8 +228,9 @@ Proof.
       * cbn [negb].
         destruct (prefixb _ _) eqn:Ecl.
         -- destruct (N.eqb r cGT) eqn:Egt.
-           ++ cbn [rinv minv]. rewrite !vals_cons. cbn [t_value].
-              rewrite <- Hb, Hpre. rewrite firstn_pre_app. rewrite <- !app_assoc. reflexivity.
+           ++ rewrite Hpre, firstn_pre_app.
+              destruct pre as [|p pre']; cbn [rinv minv]; rewrite !vals_cons; cbn [t_value];
+                rewrite <- Hb, Hpre, <- ?app_assoc; reflexivity.
            ++ cbn [rinv minv]. text_cbn. split; [exact Hb|]. intros _. exists pre. rewrite Hpre, <- app_assoc. reflexivity.
         -- cbn [rinv minv]. text_cbn. split; [exact Hb|]. intros _. exists (x_buf x ++ [r]). rewrite app_nil_r; reflexivity.
   - destruct (N.eqb r cLT) eqn:Elt.
@@ -244,11 +245,14 @@ Lemma dispatch_inv toks m r p0 p1 c :
   minv toks m c -> rinv (dispatch toks m r p0 p1) c r.
 Proof.
   intros H. destruct m as [|x|g|e]; cbn [Scan.dispatch].
-  - cbn [minv] in H. destruct (N.eqb r cLT) eqn:Elt.
-    + apply N.eqb_eq in Elt; subst r. cbn [rinv minv]. split; [unfold new_tag; tag_cbn; rewrite H; reflexivity|].
-      unfold tag_ok, new_tag; tag_cbn; auto.
-    + destruct (new_text_buf toks p0) as [E1 E2].
-      apply text_step_inv; [rewrite E1, app_nil_r; exact H|]. intros _. exists []. rewrite E1, E2. reflexivity.
+  - cbn [minv] in H.
+    assert (Htext : rinv (text_step toks (new_text toks p0) r p0 p1) c r).
+    { destruct (new_text_buf toks p0) as [E1 E2].
+      apply text_step_inv; [rewrite E1, app_nil_r; exact H|]. intros _. exists []. rewrite E1, E2. reflexivity. }
+    destruct (raw_tag_of_last _ _ _) as [n|]; [exact Htext|].
+    destruct (N.eqb r cLT) eqn:Elt; [|exact Htext].
+    apply N.eqb_eq in Elt; subst r. cbn [rinv minv]. split; [unfold new_tag; tag_cbn; rewrite H; reflexivity|].
+    unfold tag_ok, new_tag; tag_cbn; auto.
   - destruct H as [H1 H2]. apply text_step_inv; assumption.
   - destruct H as [H1 H2]. apply tag_step_inv; assumption.
   - exact I.
